@@ -114,8 +114,9 @@ extern "C" int LLVMFuzzerTestOneInput(const uint8_t* data, size_t size) {
     }
 #endif
     g_track = false;
+    if (getenv("XV_DUMP")) fprintf(stderr, "---- ced (parserErrCount=%ld nErr=%ld)\n%s----\n", po.parserErrCount, po.nErr, po.ced.c_str());
     if (g_why) die(g_why, std::string("live bytes exceeded 256*(limit+2)*(input+64) for an input of ") + std::to_string(total) + " bytes; feat=" + feat + " api=" + apis[api]);
-    if (po.ced.find("EXC\tFOREIGN") != std::string::npos) die("foreign-exception", std::string("feat=") + feat + " api=" + apis[api]);
+    if (po.ced.compare(0, 12, "EXC\tFOREIGN\n") == 0 || po.ced.find("\nEXC\tFOREIGN\n") != std::string::npos) die("foreign-exception", std::string("feat=") + feat + " api=" + apis[api]);
     if (po.parserErrCount > 0 && po.nErr == 0) die("outcome-audit", "parser counted errors but reported none; feat=" + std::string(feat) + " api=" + apis[api]);
     if ((long long)po.nEvents + (long long)po.nChars > budget)
         die("bounded-work", "events+chars " + std::to_string(po.nEvents + po.nChars) + " > (limit+2)*(input+64) = " + std::to_string(budget) + "; feat=" + feat + " api=" + apis[api]);
